@@ -1888,3 +1888,75 @@ func TestGovcReplay(t *testing.T) {
 		},
 	})
 }
+
+func init() {
+	harnesses = append(harnesses, &harness{
+		name:      "HTTP/2 client SETTINGS wake-up replay (sender parked in awaitFlowControl, window opened by SETTINGS_INITIAL_WINDOW_SIZE)",
+		modelFree: true,
+		match: func(o *Obligation) bool {
+			return strings.HasSuffix(o.Func, "http2.(*MClientConn).processSettings") && (strings.Contains(o.Name, "sendersWoken") || strings.Contains(o.Name, "cb-inv"))
+		},
+		run: func(eng *Engine, o *Obligation) *ReplayOutcome {
+			src := `package http2
+
+import (
+	"fmt"
+	"testing"
+	"time"
+
+	"mosn.io/api"
+	"mosn.io/pkg/buffer"
+)
+
+type govcConn struct{ api.Connection }
+
+func (govcConn) Write(...buffer.IoBuffer) error { return nil }
+func (govcConn) State() api.ConnState           { return api.ConnActive }
+
+func govcSettings(val uint32) *SettingsFrame {
+	p := []byte{0, byte(SettingInitialWindowSize), byte(val >> 24), byte(val >> 16), byte(val >> 8), byte(val)}
+	return &SettingsFrame{FrameHeader: FrameHeader{valid: true, Type: FrameSettings, Length: 6}, p: p}
+}
+
+// The failed obligation says: the client enlarges the send windows of its open streams on a SETTINGS frame without
+// waking the senders that wait for window. Replay: the peer advertises an initial window of 0, a request body waits
+// for window, then the peer opens the window with SETTINGS_INITIAL_WINDOW_SIZE = 65535 (no WINDOW_UPDATE).
+func TestGovcReplay(t *testing.T) {
+	cc := NewClientConn(govcConn{})
+	if err := cc.processSettings(govcSettings(0)); err != nil {
+		fmt.Println("REPLAY-INCONCLUSIVE", err)
+		return
+	}
+	cc.mu.Lock()
+	cs := cc.newStream()
+	cc.streams[cs.ID] = cs
+	cc.mu.Unlock()
+	ms := &MClientStream{clientStream: cs, conn: cc}
+	got := make(chan int32, 1)
+	go func() {
+		n, _ := ms.awaitFlowControl(100)
+		got <- n
+	}()
+	time.Sleep(200 * time.Millisecond) // the sender is now parked in cond.Wait
+	if err := cc.processSettings(govcSettings(65535)); err != nil {
+		fmt.Println("REPLAY-INCONCLUSIVE", err)
+		return
+	}
+	select {
+	case n := <-got:
+		fmt.Println("REPLAY-NOT-REPRODUCED sender woke up and took", n)
+	case <-time.After(2 * time.Second):
+		cc.mu.Lock()
+		a := cs.flow.available()
+		cc.mu.Unlock()
+		fmt.Printf("REPLAY-CONFIRMED the stream's send window is %d after the peer's SETTINGS, the sender is still parked 2s later: the request body is never delivered\n", a)
+		cc.cond.Broadcast()
+		<-got
+	}
+}
+`
+			out, _ := runOverlayTest("pkg/module/http2", src, "^TestGovcReplay$")
+			return outcomeFromOutput(src, out)
+		},
+	})
+}
